@@ -63,7 +63,7 @@ class GetItem(Operation):
         numpy.ndarray
             The array returned by the get-item operation"""
         self.variables = (a,)
-        self.index = index if isinstance(index, tuple) else (index,)
+        self.index = _own_index(index)
         out = a.data[index]
 
         self._used_distinct_indices = (
@@ -89,6 +89,15 @@ class GetItem(Operation):
             # a very slow function: https://github.com/numpy/numpy/issues/5922
             np.add.at(out, self.index, grad)
         return out
+
+
+def _own_index(index):
+    """Returns `index` as a tuple whose mutable members (arrays, lists) are copies,
+    so that changes the caller later makes to them do not reach back-propagation."""
+    index = index if isinstance(index, tuple) else (index,)
+    return tuple(
+        ind.copy() if isinstance(ind, (np.ndarray, list)) else ind for ind in index
+    )
 
 
 def _arr(*shape: int) -> np.ndarray:
@@ -142,7 +151,7 @@ class SetItem(Operation):
         in which a single element is set multiple times."""
 
         self.variables = (a, b)
-        self.index = index if isinstance(index, tuple) else (index,)
+        self.index = _own_index(index)
         out[index] = b.data
         return out
 
